@@ -41,7 +41,7 @@ func driveC12(args []string) error {
 	ds := []int{1, 2, 3, 5, 8, 13, 21, 100, 255, 256, 600}
 	as := []int{0, 1, 2, 3, 4}
 	origins := [][2]int{{0, 0}, {-32 * 4, -32 * 4}, {7 * 4, -3 * 4}, {1, -2}}
-	e1s := []int{-20, 0, 20, -3, 5}
+	e1s := []int{-20, 0, 20, -3, 5, -147, -140, -128} // incl. viewBoxes made of subnormal numbers (multiples of 2^-149)
 	e2s := []int{-10, 0, 20, 3}
 	sc := func(k4, e int) float32 { return float32(math.Ldexp(float64(k4)/4, e)) }
 	total := 12 * 12 * len(ds) * len(ds) * 25
